@@ -88,6 +88,7 @@ impl Stats {
                 SeamEv::Connect { ok: false, .. } => { self.fault("connect-refused"); bg(self, "refuse"); }
                 SeamEv::Connect { ok: true, .. } => bg(self, "connect"),
                 SeamEv::Sleep { .. } => { self.probe("retry-sleep"); bg(self, "sleep"); }
+                SeamEv::ReadTimeout { .. } => { self.fault("read-timeout-fired"); }
                 _ => {}
             }
         }
